@@ -74,7 +74,7 @@ class G:
 
 def gen_case(rng, i):
     layout = rng.choice(sorted(LAYOUTS))
-    cwdmode = rng.choice(["cfgdir", "cfgdir", "subdir", "other-flag", "other-env"])
+    cwdmode = rng.choice(["cfgdir", "cfgdir", "subdir", "subdir-nearest", "other-flag", "other-env"])
     g = G(rng, cwdmode == "cfgdir")
     exported = rng.random() < 0.7
     iname = rng.choice(["Store", "Reader", "HTTPDoer", "Worker", "UserService", "Catalogue", "Uri", "Utf8"]) if exported else rng.choice(["store", "reader", "httpDoer", "cacheService", "url", "uri", "_Hidden", "_plain", "élan"])
@@ -130,6 +130,8 @@ FIXED = [
     KF_IDR,
     {"kind": "expr", "i": -6, "layout": "initialism", "cwd": "cfgdir", "cfgname": ".mockery.yml", "iface": "Uri", "what": "initialisms", "srcfile": "iface.go", "linedir": None,
      "exprs": {"structname": "M{{ .InterfaceName | exported }}{{ \"utf8\" | exported }}{{ \"id\" | exported }}", "dir": "out/{{ .SrcPackageName | exported }}", "filename": "m.go", "pkgname": "m"}},
+    {"kind": "expr", "i": -10, "layout": "nested", "cwd": "subdir-nearest", "cfgname": ".mockery.yml", "iface": "Store", "what": "nearest-config-wins", "srcfile": "iface.go", "linedir": None,
+     "exprs": {"structname": "MockStore", "dir": "{{.ConfigDir}}/gen/{{.SrcPackageName}}", "filename": "m.go", "pkgname": "mocks"}},
     {"kind": "expr", "i": -9, "layout": "sub", "cwd": "cfgdir", "cfgname": ".mockery.yml", "iface": "Store", "what": "line-directive", "srcfile": "parser_gen.go", "linedir": "grammar/expr.y:1", "linepos": "package",
      "exprs": {"structname": "MockStore", "dir": "{{.InterfaceDir}}", "filename": "mock_{{ .InterfaceFile | base | trimSuffix \".go\" }}_test.go", "pkgname": "store"}},
     {"kind": "expr", "i": -7, "layout": "nested", "cwd": "cfgdir", "cfgname": ".mockery.yml", "iface": "_Hidden", "what": "mock-by-exportedness", "srcfile": "iface.go", "linedir": None,
@@ -170,6 +172,12 @@ def eval_case(ctx, case):
         cwd = root
     elif case["cwd"] == "subdir":
         cwd = os.path.join(root, "cwdsub", "deeper")
+    elif case["cwd"] == "subdir-nearest":
+        # two configs on the way up: the nearest one (cwdsub/) is the one in force, the one in the module root is a decoy that cannot work
+        cwd = os.path.join(root, "cwdsub", "deeper")
+        cfgpath = os.path.join(root, "cwdsub", case["cfgname"])
+        with open(os.path.join(root, ".mockery.yaml" if case["cfgname"].endswith(".yml") else ".mockery.yml"), "w") as f:
+            f.write(json.dumps({"all": True, "packages": {MOD + "/does/not/exist": None}}))
     elif case["cwd"] == "other-flag":
         cwd = os.path.join(root, "elsewhere")
         os.makedirs(os.path.join(root, "conf"))
